@@ -52,7 +52,7 @@ def gen_case(rnd, spec):
             if rnd.random() < 0.6:
                 p["name"] = rnd.choice(["verif.c16.a", "verif.c16.b", "verif.c16.c.d", "verif.c16.Ünï", "", "0", "RecPool"])
             if rnd.random() < 0.6:
-                p["level"] = rnd.randint(1, 50)
+                p["level"] = rnd.choice([rnd.randint(1, 50), rnd.randint(1, 9), 5, 51, 55, 60, 100])  # custom levels below DEBUG and above CRITICAL too
             if rnd.random() < 0.4:
                 p["message"] = rnd.choice(["set %(value)s", "%(demand)s -> %(value)s on %(target)s", "u=%(utilisation).3f a=%(allocation)r s=%(supply)d"])
         elif kind == "Standardiser":
@@ -109,8 +109,11 @@ class Capture(logging.Handler):
         self.pool = pool
         self.records = []
         self.kept = []
+        self.only = None
 
     def emit(self, record):
+        if self.only is not None and record.name not in self.only:
+            return  # attached to the root logger: somebody else's record
         self.records.append((record, self.pool.writes, dict(self.pool.peek())))
         self.kept.append(dict(record.args) if isinstance(record.args, dict) else record.args)  # what the record said when it was emitted
 
@@ -126,6 +129,7 @@ def execute(case, result):
     layers = []  # bottom-up: (kind, params, object)
     obj = pool
     capture = Capture(pool)
+    configured_level = {}
     hooked = []
     saved = []
     # records are enabled through the root logger's threshold; the named loggers keep whatever level they have (normally
@@ -136,10 +140,20 @@ def execute(case, result):
     names = [p.get("name") for kind, p in case["stack"] if kind == "Logger"] + [op[2] for op in case["ops"] if op[0] == "rename"]
     untouched = {logging.getLogger(n if n is not None else "RecPool").name: logging.getLogger(n if n is not None else "RecPool").level for n in names}
     untouched["root"] = 1
+    # where the handler sits: on the named loggers themselves, or - as most applications do it - on the root logger only,
+    # which the records reach by propagation
+    via_root = len(repr(case["stack"])) % 2 == 0 and "" not in names and None not in names
+    if via_root:
+        capture.only = set(untouched) - {"root"}
+        root.addHandler(capture)
+        hooked.append(root)
+        result.count("stacks_whose_records_reach_the_handler_by_propagation")
     try:
         for kind, p in reversed(case["stack"]):
             obj = classes[kind](obj, **p)
             layers.append((kind, p, obj))
+            if kind == "Logger" and "level" in p:
+                configured_level[id(obj)] = p["level"]
             if kind == "Logger":
                 configured = p["name"] if p.get("name") is not None else type(obj.target).__qualname__
                 lg = logging.getLogger(configured)  # the empty name is the root logger, as in the logging module
@@ -148,7 +162,7 @@ def execute(case, result):
                         h.removeHandler(capture)
                     root.setLevel(root_level)
                     return [("Logger configured with name %r reports logger %r, expected %r" % (p.get("name"), obj.name, lg.name), None)]
-                if lg not in hooked:
+                if lg not in hooked and not via_root:
                     saved.append((lg, untouched.get(lg.name, lg.level), lg.propagate))
                     lg.propagate = False
                     lg.addHandler(capture)
@@ -202,7 +216,7 @@ def execute(case, result):
                     continue
                 for (record, writes_at_emit, state_at_emit), (layer, accept, pre) in zip(new, expected):
                     result.count("records_checked")
-                    want_level = layer.level
+                    want_level = configured_level.get(id(layer), layer.level)  # what the configuration said, not what the object made of it
                     args = record.args
                     if record.name != layer.name or record.levelno != want_level:
                         bad("record on logger %r level %r, configured %r level %r" % (record.name, record.levelno, layer.name, want_level))
@@ -243,13 +257,16 @@ def execute(case, result):
                     layer = loggers[op[1] % len(loggers)]
                     if op[0] == "relevel":
                         layer.level = op[2]
+                        configured_level[id(layer)] = op[2]
                         result.count("loggers_releveled")
                     else:
                         layer.name = op[2]
                         want = logging.getLogger(op[2] if op[2] is not None else type(layer.target).__qualname__)
                         if layer.name != want.name:
                             bad("after setting name to %r the Logger reports %r, expected %r" % (op[2], layer.name, want.name))
-                        if want not in hooked:
+                        if via_root:
+                            capture.only.add(want.name)
+                        elif want not in hooked:
                             saved.append((want, untouched.get(want.name, want.level), want.propagate))
                             want.propagate = False
                             want.addHandler(capture)
@@ -381,6 +398,6 @@ def run_shard(spec):
 
 def finish(total, tier):
     for name in ("writes_checked", "records_checked", "transparent_writes_checked", "reads_checked", "loggers_renamed", "loggers_releveled",
-                 "states_utilisation_above_allocation", "states_with_fractions_that_are_not_floats", "stacks_whose_earlier_records_were_read_again_after_later_writes", "templates_unknown_field", "templates_known_fields"):
+                 "states_utilisation_above_allocation", "states_with_fractions_that_are_not_floats", "stacks_whose_records_reach_the_handler_by_propagation", "stacks_whose_earlier_records_were_read_again_after_later_writes", "templates_unknown_field", "templates_known_fields"):
         if not total.counters.get(name) and not total.violations:
             total.inconc("monitor never observed: " + name)
